@@ -11,7 +11,8 @@ EVIDENCE = dict(
          "update_user_defined_controllers(), MIDI bindings of user controllers; lowered counts on live objects; both "
          "contexts (stand-alone synth, inside a project, Module.clone). TLC checks loaded = Norm(original) recursively, "
          "loaded = Read(bytes), bytes = Write(original) incl. exactly 5 + n CVALs and labels only for exposed controllers. "
-         "non-trivial = n > 0 or an embedded module.",
+         "Also: values beyond nominal ranges behind the embedded project, chains through nested MetaModules, twin MetaModules with "
+         "identical embedded projects edited after a load, four nesting levels. non-trivial = n > 0 or an embedded module.",
     explanation="RVFormat's MetaModule section (recursive Write/Read, target-dependent stored form of user controller values)")
 
 
